@@ -222,7 +222,7 @@ func (o *Operator) Actions(w *World) []Action {
 func (o *Operator) Handle(w *World, op *types.Operation) *APIResult {
 	n := w.Nodes[o.Idx]
 	a := w.Airs[o.Idx]
-	w.Log.Add("operator[%d] takes %s %.8s", o.Idx, op.Type, op.ID)
+	w.Log.Add("operator[%d] takes %s round=%.8s batch=%.8s", o.Idx, op.Type, op.DKGIdentifier, BatchOfOp(op))
 	if string(op.Type) == string(spf.StateAwaitParticipantsConfirmations) {
 		body, _ := json.Marshal(map[string]string{"operationID": op.ID})
 		rep := w.CallAPI(n, "approve", "POST", "/approveDKGParticipation", body)
